@@ -11,7 +11,9 @@ CLAIMS = {
         'every FSTView operation is the Python list operation on its window for any healing history. Tie: translator + vm_compute correspondence '
         '(exhaustive small domain) for the functions, random op-sequence correspondence for the view model, and an API-level oracle over 38 container kinds '
         '(expected tree = ast.parse of the independently rendered element list). models/Arglikes.v: the position of a keyword in the merged argument list is mapped to the keywords field '
-        'correctly iff no positional argument stands behind it, which is exactly when the insertion guard passes (tied by correspondence in the split-fields sweep). '
+        'correctly iff no positional argument stands behind it, which is exactly when the insertion guard passes; the guard of args / bases slice edits passes iff everything the edit touches lies in '
+        'front of the first keyword, where argument index = merged index (both tied by correspondence in the split-fields sweep). One element that needs its own parentheses stays ONE element '
+        'through every single-element and one-element-slice entry point (deterministic sweep). '
         'Handler glue is not proved (cross-check only).',
    note='Trusted: Coq kernel/vm_compute; py/py2v translator; CPython ast as reference; the view model is hand-written (tied by correspondence); '
         'refusal allow-list py/props/C03_refusals_allow.json. No axioms.',
@@ -183,11 +185,14 @@ CLAIMS = {
  'C16': dict(
    technique='Coq proof: the scope-restricted walk (stop at nested scopes, take their outer parts, hoist walrus targets out of comprehensions) yields exactly the nodes the declarative rule assigns to the scope, for every tree and scope at any depth; walrus-free trees are partitioned; correspondence with walk(scope=True) on encoded real trees; symtable oracle for scope_symbols',
    text='Proved (closed): for every tree with unique ids and every scope root (function-like or comprehension) the modelled scope walk yields exactly the declaratively assigned nodes, walrus targets going to '
-        'their comprehension, every enclosing comprehension and the nearest function-like scope; without walrus targets each node belongs to exactly one scope. Partial: agreement of the rule and of name '
+        'their comprehension, every enclosing comprehension and the nearest function-like scope; without walrus targets each node belongs to exactly one scope; the classification half of scope_symbols '
+        '(models/Symbols.v over the load / store / del / global / nonlocal / comprehension-walrus events of the scope in walk order): free = the compiler\'s used-not-bound-not-declared, local = the '
+        'compiler\'s local minus deleted-only names, local / free / declared disjoint, walrus targets of a comprehension root stored but not local and reported free (tied by correspondence of all seven '
+        'dictionaries, keys in order). Partial: agreement of the rule and of name '
         'classification with CPython is decided by the oracle: every scope of hand-written scope programs, the corpus and generated programs: node sets of walk(True, scope=True) vs the Coq walk on the encoded '
         'tree; scope_symbols(full=True) vs the symtable module (load, store+del, global, nonlocal, local, free; names restricted to those occurring in the scope because CPython 3.12 merges inlined '
         'comprehensions). Two defects found (exception / pattern-capture names never reported; first-iterable names dropped under a filter) were repaired in /repo.',
-   note='Trusted: Coq kernel/vm_compute; hand model Scope.v tied by correspondence; the encoder\'s outer/inner split per node class (the property\'s own list); CPython symtable. No axioms.',
+   note='Trusted: Coq kernel/vm_compute; hand models Scope.v and Symbols.v tied by correspondence (the events a node class contributes are re-derived by the harness); the encoder\'s outer/inner split per node class (the property\'s own list); CPython symtable. No axioms.',
    design='DESIGN.md section 4 C16'),
  'C18': dict(
    technique='Coq proof: substitution on rose trees for any node predicate and templates with whole-match / child-capture slots: the flat substitution meets (and is determined by) the declarative replace-outermost-matches specification; whole-match template is the identity flat and nested; count = number of outermost matches; no match => unchanged; correspondence with FST.subn; pure-AST reference oracle over 16 scenarios',
@@ -203,11 +208,12 @@ CLAIMS = {
  'C19': dict(
    technique='Coq proof: expression <-> match-pattern coercion over a grammar covering everything the routines accept: whenever a coercion succeeds the result has exactly the names and constants of the operand in the same order (both directions), simple forms round-trip, other expressions are refused; correspondence of accept/refuse and result structure with as_(pattern) / FST(ast, pattern) / as_(expr); kind x mode matrix oracle',
    text='Proved (closed): for every expression of the modelled grammar that coerces to a pattern the pattern has the same leaves in the same order (wildcard, or-ladders flattened in order, mapping keys, class keyword names, '
-        '** rest), likewise pattern to expression; captures, literals, signed numbers and attribute chains go there and back unchanged. Partial: the remaining coercion routines and formatting are decided by '
+        '** rest), likewise pattern to expression; captures, literals, signed numbers and attribute chains go there and back unchanged; the import-alias coercion (models/Alias.v) accepts exactly attribute chains on a name and builds the '
+        'dotted path in source order (tied to as_(alias) / FST(ast, alias) / as_(_aliases) by correspondence). Partial: the remaining coercion routines and formatting are decided by '
         'the oracle: ~200 hand operands (every repeated element twice and three times, non-ASCII, parenthesized, multi-line) + corpus nodes x 40 target modes: operand untouched under copy=True, result of the requested kind, verifies and re-parses in that mode to itself, same names/constants, same '
         'kind unchanged, formatted vs pure-AST coercion agree, in-place == copy, coercing put == put of the converted node. Two defects repaired in /repo, one recorded as known finding (its wrong '
         'behaviour is pinned by an existing snapshot test).',
-   note='Trusted: Coq kernel/vm_compute; hand model Coerce.v tied by correspondence; FST(src, mode) (C05) as the meaning of "parses in the requested mode". No axioms.',
+   note='Trusted: Coq kernel/vm_compute; hand models Coerce.v and Alias.v tied by correspondence; FST(src, mode) (C05) as the meaning of "parses in the requested mode". No axioms.',
    design='DESIGN.md section 4 C19'),
 }
 
